@@ -40,8 +40,9 @@ def lost_confirmed(ctx, floors):
 
 def common(ctx):
     """Generic rules applied, in both tiers, to every function the property's own check placed an obligation on."""
-    from .rules import r_fresh_result, r_scalar_dim_expand
+    from .rules import r_fresh_result, r_roots_rounded, r_scalar_dim_expand, r_subsystem_count
 
+    ctx.rule("R-SHAPE", "the subsystem count of a two-row dimension table is its number of columns; inferred dimensions (roots of sizes) are rounded")
     ctx.rule("R-EFFECT", "array-returning functions are not memoised: every call returns a fresh object")
     ctx.rule("R-KIND", "a scalar `dim` expands to [dim, total/dim]: the scalar names the first local dimension, as the list form does")
     for q in sorted(ctx.analysed_functions):
@@ -49,6 +50,9 @@ def common(ctx):
         if f is not None:
             r_scalar_dim_expand(ctx, f)
             r_fresh_result(ctx, f)
+            r_roots_rounded(ctx, f)
+            if ctx.prop in ("C01", "C02", "C03"):  # properties that quantify over n-partite operators with separate row / column dimensions
+                r_subsystem_count(ctx, f)
 
 
 def run_property(pid: str, tier: str, model=None):
